@@ -49,7 +49,9 @@ def hist_scripts(lines, kt_model, limit, seed):
             continue
         seen.add(body)
         uniq.append(body)
-    uniq = pick(uniq, limit, seed)
+    # transitions that involve a key of the other scheme are few and always replayed
+    crossy = [u for u in uniq if '"cross"' in u]
+    uniq = crossy + pick([u for u in uniq if '"cross"' not in u], None if limit is None else max(0, limit - len(crossy)), seed)
     own, other, cross = {"k256": ("k1", "k2", "e2"), "ed": ("e1", "e2", "k3"),
                          "comb_secp": ("k1", "k2", "e2"), "comb_ed": ("e1", "e2", "k3")}[kt_model]
     kts = {"k256": ["k256", "libsecp", "comb", "wk256"], "ed": ["ed", "comb", "wed"],
@@ -225,7 +227,7 @@ def model_typed(tier, wd, seed=1):
 
 
 def model_stream(tier, wd, seed=1):
-    s2 = "{0, 1, 127, 128, 183, 184, 192, 247, 248, 255, 256}" if tier == "quick" else "0..256"
+    s2 = "{0, 1, 127, 128, 183, 184, 192, 247, 248, 255, 256}" if tier == "quick" else "{" + ", ".join(str(i) for i in range(257)) + "}"
     stats, _ = simple_model("MC_Stream.tla", "SPECIFICATION Spec\nCONSTANTS\n  S2 = %s\nINVARIANTS PrefixLocal Sizes\nCHECK_DEADLOCK FALSE\n" % s2, "MC_Stream", wd)
     return {"stats": stats, "scripts": []}
 
